@@ -30,7 +30,21 @@ func implParse(q string) (obs map[string]any) {
 			obs = map[string]any{"panic": fmt.Sprint(r)}
 		}
 	}()
-	segs, err := sqlair.VerifParse(q)
+	var segs []hookSeg
+	var err error
+	if hooksAvailable {
+		segs, err = hookParse(q)
+	} else {
+		// public API only: a parse error is recognisable by its prefix; anything else
+		// (success or a bind error) means the text was parsed
+		_, err = sqlair.Prepare(q)
+		if err != nil && !strings.HasPrefix(err.Error(), "cannot parse expression: ") {
+			err = nil
+		}
+		if err == nil {
+			return map[string]any{"ok": true, "nosegs": true, "segs": []any{}}
+		}
+	}
 	if err != nil {
 		o := map[string]any{"ok": false}
 		msg := err.Error()
@@ -54,23 +68,47 @@ func implParse(q string) (obs map[string]any) {
 	for _, s := range segs {
 		cols := []any{}
 		for _, c := range s.Columns {
-			cols = append(cols, map[string]any{"t": hx(c.Table), "c": hx(c.Column), "f": c.Func})
+			cols = append(cols, map[string]any{"t": hx(c[0].(string)), "c": hx(c[1].(string)), "f": c[2].(bool)})
 		}
 		types := []any{}
 		for _, t := range s.Types {
-			types = append(types, map[string]any{"t": hx(t.Type), "m": hx(t.Member)})
+			types = append(types, map[string]any{"t": hx(t[0]), "m": hx(t[1])})
 		}
 		vals := []any{}
 		for _, v := range s.Values {
 			if v.Literal {
 				vals = append(vals, map[string]any{"lit": hx(v.Text)})
 			} else {
-				vals = append(vals, map[string]any{"t": hx(v.Accessor.Type), "m": hx(v.Accessor.Member)})
+				vals = append(vals, map[string]any{"t": hx(v.Type), "m": hx(v.Member)})
 			}
 		}
 		js = append(js, map[string]any{"k": s.Kind, "raw": hx(s.Raw), "cols": cols, "types": types, "vals": vals})
 	}
 	return map[string]any{"ok": true, "segs": js}
+}
+
+// modelClient is the Lean driver of the running layer (used in degraded mode).
+var modelClient *lean.Client
+
+// parsedNodes returns the nodes of q for the layers above the parser: the
+// implementation's (relative layering) or, without hooks, the parser model's.
+func parsedNodes(q string) map[string]any {
+	if hooksAvailable {
+		return implParse(q)
+	}
+	o := implParse(q)
+	if ok, _ := o["ok"].(bool); !ok || modelClient == nil {
+		return o
+	}
+	resp, err := modelClient.Call(map[string]any{"k": "l1", "q": hx(q), "cls": clsOf(q)})
+	if err != nil {
+		return map[string]any{"ok": false}
+	}
+	m, _ := resp["model"].(map[string]any)
+	if mok, _ := m["ok"].(bool); !mok {
+		return map[string]any{"ok": false}
+	}
+	return m
 }
 
 // implParseTimed guards against hangs.
@@ -233,7 +271,11 @@ func runL1(args []string) {
 		fatalf("cannot start driver: %v", err)
 	}
 	defer cl.Close()
+	modelClient = cl
 	rep := newReport("l1", *seed, *tier)
+	if !hooksAvailable {
+		rep.Notes = append(rep.Notes, "degraded mode: hooks not available, the parser is observed through Prepare (accept/reject, error text) only")
+	}
 	rep.Rule = "queries from grammar skeletons, token soup, mutations of those and of the query literals in /repo's tests, splices and raw bytes; " +
 		"non-trivial = contains at least one SQLair expression node or is rejected by implementation or model; distinct by SHA-256 of the bytes"
 
